@@ -29,8 +29,9 @@
 (***************************************************************************)
 EXTENDS Integers, Sequences, FiniteSets, TLC, Json, CSV, IOUtils
 CONSTANTS Family, MaxOps, Codes, Bug, Emit,
-          Wide       \* TRUE: every fault at both ends of the page and every set-up with and without the meaningless
-                     \* entry bits (cache, accessed, dirty, PAT, global, available); FALSE: a deterministic mix of them
+          Wide       \* TRUE: every fault at both ends of its page; FALSE: offsets 0 / 1 / 2048 / 4095 in a deterministic mix.
+                     \* (The meaningless entry bits - cache, accessed, dirty, PAT, global, available - are set in half of
+                     \* the set-ups, chosen by the parity of the flag combination.)
 P == INSTANCE CoWProps
 
 NP == 4
@@ -63,7 +64,7 @@ vars == <<pg, content, nextf, zextra, dead, nops, script, xbits, s, mismatch>>
 \* offsets of the fault address inside its page, and masks of meaningless entry bits
 Offsets == <<0, 1, 2048, 4095>>
 OffsFor(k) == IF Wide THEN {0, 4095} ELSE {Offsets[(k % 4) + 1]}
-XFor(k) == IF Wide THEN {0, 2047} ELSE {IF k % 2 = 0 THEN 0 ELSE 2047}
+XFor(k) == {IF k % 2 = 0 THEN 0 ELSE 2047}
 
 Rec(up, fl, f) == [up |-> up, fl |-> fl, f |-> f]
 \* number of upper levels the walk passes (leading present entries)
@@ -111,7 +112,7 @@ Init ==
         \* (i) every upper level in turn carries every combination of RW / user / bit 9 / no-execute while present,
         \*     under every last-level flag subset
         /\ \/ \E l \in 1..3, b \in Up4, fl \in AllFlagSets, x \in {0, 2047} :
-                /\ x \in (IF Wide THEN {0, 2047} ELSE {IF (Code(fl) + l + b[1] + b[3]) % 2 = 0 THEN 0 ELSE 2047})
+                /\ x \in XFor(Code(fl) + l + b[1] + b[3])
                 /\ xbits = x
                 /\ pg = [Pg0 EXCEPT ![1] = Rec([UpStd EXCEPT ![l] = UEnt(1, b, l)], fl, IF fl[2] = 1 THEN 3 ELSE Z)]
                 /\ script = (IF fl[2] = 1 THEN <<<<"mapnew", 1, 19>>>> ELSE <<>>) \o <<<<"poke", 1, Code(fl)>>>>
